@@ -128,6 +128,11 @@ class Run(Oracles):
         loop = asyncio.new_event_loop()
         w.loop = loop
         loop.set_exception_handler(lambda loop, ctx: None)
+        from ..common import deterministic_tasks, h8
+        salt = self.program.get("salt")
+        if salt is None:
+            salt = int(h8({"pools": self.program.get("pools"), "steps": self.program.get("steps")}), 16)
+        self.TaskCls = deterministic_tasks(loop, salt)
         debug = self.program.get("log") == "debug"
         if debug:
             debug_logging()
@@ -269,7 +274,7 @@ class Run(Oracles):
         coro = getattr(self, "actor_" + op["op"])(op)
         if op.get("place", "eager") == "eager":
             # the caller awaits the blocking method in place: its synchronous prefix runs right now (Python 3.12 eager start)
-            t = asyncio.Task(coro, loop=self.w.loop, eager_start=True)
+            t = self.TaskCls(coro, loop=self.w.loop, eager_start=True)
         else:
             t = asyncio.ensure_future(coro)
         t.vt_pm = self.pm_of(op)  # type: ignore[attr-defined]
